@@ -26,6 +26,7 @@ func main() {
 	failc := flag.Int("fail", 0, "fail k-th controller call")
 	failk := flag.String("failkind", "error", "error|timeout|conflict|lost")
 	spec := flag.String("spec", "", "scenario JSON (overrides)")
+	replay := flag.String("replay", "", "replay file: take detail.scenario as the spec")
 	flag.Parse()
 	if os.Getenv("VERIF_KLOG") == "" {
 		fs := flag.NewFlagSet("k", flag.ContinueOnError)
@@ -39,6 +40,24 @@ func main() {
 	s := sim.GenScenario(rng, *family)
 	if *provider != "" {
 		s.Provider = *provider
+	}
+	if *replay != "" {
+		b, err := os.ReadFile(*replay)
+		if err != nil {
+			panic(err)
+		}
+		var r struct {
+			Detail struct {
+				Scenario json.RawMessage `json:"scenario"`
+			} `json:"detail"`
+		}
+		if err := json.Unmarshal(b, &r); err != nil {
+			panic(err)
+		}
+		s = &sim.Scenario{}
+		if err := json.Unmarshal(r.Detail.Scenario, s); err != nil {
+			panic(err)
+		}
 	}
 	if *spec != "" {
 		if err := json.Unmarshal([]byte(*spec), s); err != nil {
@@ -81,6 +100,10 @@ func main() {
 		}
 	}
 	fmt.Printf("RESULT terminal=%v quiescent=%v stop=%q actions=%d budget=%d writes=%d calls=%d restarts=%d timedWaits=%d user=%v faults=%v\n", r.Terminal, r.Quiescent, r.StopReason, r.Actions, r.Budget, r.W.Store.Writes(), r.W.Store.Calls(), r.W.Restarts, r.TimedWaits, r.UserActions, r.InjectedFaults)
+	if ro := r.Rollout(); ro != nil {
+		b, _ := json.Marshal(ro.Status)
+		fmt.Println("ROLLOUT STATUS", string(b))
+	}
 	for _, p := range r.W.Panics {
 		fmt.Println("PANIC", p.Ctrl, p.Key, p.Panic, p.PanicSite)
 	}
@@ -94,3 +117,5 @@ func main() {
 		fmt.Println("ADMISSION calls", adm.Calls, "mutations", adm.Mutations, "denied", adm.Denied, "panics", adm.Panics)
 	}
 }
+
+func init() { _ = json.Marshal }
